@@ -20,11 +20,16 @@ Inductive site :=
 | SParse         (* pyflyby._parse.PythonBlock.ast_node               - parsing the file of %run *)
 | SDbLoad        (* pyflyby._importdb.ImportDB.get_default            - database load *)
 | STryImport     (* pyflyby._autoimp._try_import                      - import execution (pyflyby's own function failing) *)
-| SCompletion.   (* pyflyby._interactive.complete_symbol              - completion lookup *)
+| SCompletion    (* pyflyby._interactive.complete_symbol              - completion lookup *)
+| SNeedsImport   (* pyflyby._autoimp.symbol_needs_import, k-th call   - when the call falls inside find_missing_imports
+                    (mid-visit of the user's AST) the harness reports it as SAnalysis; this site is the call
+                    made by auto_import_symbol *)
+| SModuleList.   (* pyflyby._modules.ModuleHandle.list                - module enumeration of a global completion
+                    (natural source: a sys.path entry whose finder's iter_modules() raises) *)
 
 Definition site_index (x : site) : N :=
   match x with SNamespaces => 0 | SScopeStack => 1 | SAnalysis => 2 | SParse => 3 | SDbLoad => 4
-             | STryImport => 5 | SCompletion => 6 end%N.
+             | STryImport => 5 | SCompletion => 6 | SNeedsImport => 7 | SModuleList => 8 end%N.
 Definition site_eqb (a b : site) : bool := (site_index a =? site_index b)%N.
 
 (* the fault plan of one interaction: which stubs are armed, and what each raises *)
@@ -42,8 +47,9 @@ Definition visit (F : faults) (x : site) (s : state) : res unit :=
 Inductive nm :=
 | NKnownOk (id : N)                  (* unique known import, importing succeeds *)
 | NKnownRaises (id : N) (e : exc)    (* unique known import, the module raises e when imported *)
-| NUnknown (id : N).                 (* no known import, no such module *)
-Definition nm_id (n : nm) : N := match n with NKnownOk i | NKnownRaises i _ | NUnknown i => i end.
+| NUnknown (id : N)                  (* no known import, no such module *)
+| NRegistered (id : N).              (* known only if registered with pyflyby.add_import() in this session *)
+Definition nm_id (n : nm) : N := match n with NKnownOk i | NKnownRaises i _ | NUnknown i | NRegistered i => i end.
 
 Definition memN (x : N) (l : list N) : bool := existsb (N.eqb x) l.
 Definition has_key (x : N) (l : list (N * bool)) : bool := existsb (fun p => N.eqb x (fst p)) l.
@@ -69,23 +75,30 @@ Variable E : env.
         namespace[name0] = imported; return True                                            *)
 Definition log_at (level : N) (s : state) : state := if (e_level E <=? level)%N then log_emit s else s.
 
+Definition import_ok (F : faults) (id : N) (s : state) : res bool :=
+  bind (visit F STryImport s) (fun s _ =>
+  let s := log_at 20 s in
+  Ret (set_attempted ((id, true) :: attempted s) (set_user_ns (id :: user_ns s) s)) true).
+
 Definition import_one (F : faults) (n : nm) (s : state) : res bool :=
   bind (visit F SScopeStack s) (fun s _ =>
+  bind (visit F SNeedsImport s) (fun s _ =>
   let id := nm_id n in
   if memN id (user_ns s) then Ret s true
   else if has_key id (attempted s) then Ret s false
   else match n with
        | NUnknown _ => Ret (set_attempted ((id, false) :: attempted s) s) false
-       | NKnownOk _ =>
-           bind (visit F STryImport s) (fun s _ =>
-           let s := log_at 20 s in
-           Ret (set_attempted ((id, true) :: attempted s) (set_user_ns (id :: user_ns s) s)) true)
+       | NKnownOk _ => import_ok F id s
+       | NRegistered _ =>
+           (* extra_db=self.db: the names add_import() registered; the dynamic-import finder serves the module *)
+           if memN id (registered s) then import_ok F id s
+           else Ret (set_attempted ((id, false) :: attempted s) s) false
        | NKnownRaises _ e =>
            bind (visit F STryImport s) (fun s _ =>
            let s := log_at 20 s in
            if is_Exception e then Ret (set_attempted ((id, false) :: attempted s) (log_at 30 s)) false
            else Raise s e)
-       end).
+       end)).
 
 (*  for fullname in fullnames: ok &= auto_import_symbol(...)  *)
 Fixpoint import_all (F : faults) (ns : list nm) (ok : bool) (s : state) : res bool :=
@@ -239,7 +252,9 @@ Definition complete_body (F : faults) (attr : bool) (names : list nm) (s : state
     | Ret s' _ => Ret (set_attempted a0 s') ViaPyflyby
     | Raise s' e => if is_Exception e then Ret (set_attempted a0 s') ViaPyflyby else Raise (set_attempted a0 s') e
     end
-  else Ret s ViaPyflyby))).
+  else
+    (* results.update([str(m) for m in ModuleHandle.list()]) *)
+    bind (visit F SModuleList s) (fun s _ => Ret s ViaPyflyby)))).
 
 (*  global_matches_with_autoimport(fullname) / attr_matches_with_autoimport(fullname):
         namespaces = get_completer_namespaces()      [None without pt_cli]
@@ -356,7 +371,7 @@ Inductive sop := SOp (o : op) | SCell (c : cell).
 Definition sstep (sh : shell) (o : sop) : shell * option cout :=
   match o with
   | SOp o => (step E sh o, None)
-  | SCell c => let '(s', out) := interact c (ai sh) in (mkShell s' (ext_loaded sh) None, Some out)
+  | SCell c => let '(s', out) := interact c (ai sh) in (mkShell s' (ext_loaded sh) None (ext_attr sh), Some out)
   end.
 
 Fixpoint strace (ops : list sop) (sh : shell) : list (shell * option cout) :=
